@@ -33,10 +33,22 @@ Blank(G, k, v, path) ==
            [] v.t = "un"  -> IF v.b = s THEN [t |-> "un", b |-> v.b, x |-> Blank(G, n.variants[v.b + 1], v.x, rest)] ELSE v
            [] OTHER -> v
 
+\* optional limits of the event (C04): allowed depth and maximum sequence size; the defaults otherwise
+DepthOf(e) == IF "depth" \in DOMAIN e THEN e.depth ELSE DefaultDepth
+MaxSeqOf(e) == IF "maxseq" \in DOMAIN e THEN e.maxseq ELSE DefaultMaxSeq
+
 SkipAllowed(e) ==
     LET G == Scope[e.si].nodes
-        r == DecAll(G, e.bytes)
-    IN  CASE r.st = "ok"   -> e.res = "ok" /\ e.value = Blank(G, 1, r.v, e.path) /\ e.consumed = r.pos - 1
+        r == Dec(G, 1, e.bytes, 1, DepthOf(e), MaxSeqOf(e))
+        unlimited == Dec(G, 1, e.bytes, 1, 100000, DefaultMaxSeq)
+        depthOnly == Dec(G, 1, e.bytes, 1, DepthOf(e), DefaultMaxSeq)
+    IN  \* a VALID encoding that the depth limit refuses must be refused by an ignoring target as well (C04: nesting deeper than the
+        \* limit is rejected - the skip paths recurse too).  The sequence maximum is different: a skipped collection written in
+        \* byte-sized blocks is jumped over without counting its elements, which costs nothing and is what C12 expects; so when only
+        \* max_seq refuses the encoding, the ignoring target may or may not.
+        IF depthOnly.st = "err" /\ unlimited.st = "ok" THEN e.res = "err"
+        ELSE IF r.st = "err" /\ unlimited.st = "ok" THEN e.res \in {"ok", "err"} ELSE
+        CASE r.st = "ok"   -> e.res = "ok" /\ e.value = Blank(G, 1, r.v, e.path) /\ e.consumed = r.pos - 1
           \* C12 speaks of VALID encodings only.  On a malformed one the ignoring target may or may not notice (the skip paths
           \* validate neither UTF-8 nor enum indices, and that is what the property expects of them); it must return (C04)
           [] r.st = "err"  -> e.res \in {"ok", "err"}
